@@ -466,6 +466,9 @@ pub fn explore_states(
             if alts.is_empty() {
                 let f = mon.terminal(&mut sys, false);
                 if f.is_empty() {
+                    // the terminal monitor's poke continuation applied further actions: the
+                    // schedule that reached this terminal state is `cur`
+                    sys.history.truncate(cur.len());
                     on_terminal(&mut sys);
                 }
                 for (inv, detail) in f {
